@@ -214,6 +214,7 @@ impl RecCtx<'_> {
                 sync_obs: BTreeMap::new(),
                 sync_errors: vec![],
                 be_violations: vec![],
+                judge_compact_size: false,
             };
             for (k, (id, snap)) in cp.psp.iter().enumerate() {
                 w.psp.insert(
